@@ -619,6 +619,19 @@ func lookupDescendantIn(c xnode, sn Node, path []xml.Name) (string, bool) {
 		return "", false
 	}
 	hd, tl := path[0], path[1:]
+	// The step is resolved in the schema first: a choice or case of that
+	// name has no data node, whatever data nodes c happens to hold (a case
+	// may be named like a leaf of the entry).  Choices() of a case also
+	// lists its data nodes; those are looked up in the data below.
+	for _, cc := range sn.Choices() {
+		if cc.Name() != hd.Local {
+			continue
+		}
+		switch cc.(type) {
+		case Choice, Case:
+			return lookupDescendantIn(c, cc, tl)
+		}
+	}
 	for _, ch := range c.children(xutils.Sorted) {
 		if ch.YangDataName() != hd.Local {
 			continue
@@ -632,11 +645,6 @@ func lookupDescendantIn(c xnode, sn Node, path []xml.Name) (string, bool) {
 			return ch.YangDataValuesNoSorting()[0], true
 		default:
 			return "", false
-		}
-	}
-	for _, cc := range sn.Choices() {
-		if cc.Name() == hd.Local {
-			return lookupDescendantIn(c, cc, tl)
 		}
 	}
 	return "", false
